@@ -13,6 +13,7 @@ package main
 // irrelevant to the model (they stay opaque), but the real code still dereferences `*raw` itself.
 
 import (
+	"encoding/json"
 	"errors"
 
 	jsoniter "github.com/json-iterator/go"
@@ -125,6 +126,19 @@ type verifC08Key struct {
 //     remaining members present with one well-typed representative.
 func verifC08Object(name string, keys []verifC08Key) map[string]any {
 	m := map[string]any{}
+	if verifParam("full_product", 0) == 1 {
+		// thorough: every member independently absent | well-typed (every pool value) | ill-typed
+		// (each of the five other dynamic types)
+		for _, k := range keys {
+			switch verifChoice(name+"."+k.name+".state", 3) {
+			case 1:
+				m[k.name] = verifC08OfType(name+"."+k.name, k.want, k.strs, k.nums)
+			case 2:
+				m[k.name] = verifC08IllTyped(name+"."+k.name, k.want)
+			}
+		}
+		return m
+	}
 	bad := verifChoice(name+".illtyped-member", len(keys)+1) - 1 // -1: none
 	for i, k := range keys {
 		if i == bad {
@@ -150,3 +164,29 @@ func verifC08Object(name string, keys []verifC08Key) map[string]any {
 	}
 	return m
 }
+
+// verifC08RawParams models req.Params as delivered by jsonrpc2.Request.UnmarshalJSON:
+// nil when the request has no "params" member, otherwise a non-nil raw message.
+var verifC08ParamsMissing bool
+
+// `parsed` tells whether the code under test is going to parse the params (only then does the
+// known-finding region C08-params-nil apply).
+func verifC08RawParams(parsed bool) *json.RawMessage {
+	verifC08ParamsMissing = verifChoice("params.member", 2) == 0
+	if verifC08ParamsMissing {
+		// {"jsonrpc":"2.0","id":1,"method":"getBlock"}  -> req.Params == nil
+		if parsed {
+			verifKnownFinding("C08-params-nil", true)
+		}
+		return nil
+	}
+	raw := json.RawMessage("[opaque]")
+	return &raw
+}
+
+// first positional argument of the four methods
+var (
+	verifC08SlotArg = verifC08Key{"slot", verifC08Number, []string{"123", ""}, verifC08Numbers}
+	verifC08SigArg  = verifC08Key{"signature", verifC08String, verifC08B58Strings, []float64{1}}
+	verifC08AddrArg = verifC08Key{"address", verifC08String, append([]string{verifC08Key32}, verifC08B58Strings...), []float64{1}}
+)
